@@ -227,6 +227,17 @@ def run_single(case, res):
         res.outcome("generated")
         if rot != 0.0 or case["offset"] == 0:
             res["nontrivial"] += 1
+    # the same outline given with whole numbers as ints (as a JSON input file may) must give the same field
+    if case.get("as_int") and all(float(v).is_integer() for p in lot for v in p):
+        ilot = [[int(v) for v in p] for p in lot]
+        for rot in case["rots"]:
+            res["evals"] += 1
+            f0, e0 = with_horizon(gen_once, lot, spacing, rot, nogo)
+            f1, e1 = with_horizon(gen_once, ilot, spacing, rot, nogo)
+            if e0 is None and (e1 is not None or np.asarray(f0).shape != np.asarray(f1).shape or not np.allclose(np.asarray(f0, dtype=float), np.asarray(f1, dtype=float), atol=1e-9, rtol=0)):
+                res["violations"].append(core.viol("integer_outline_changes_field", dict(case, rots=[rot]), observed=[len(np.asarray(f0)), None if e1 is not None else len(np.asarray(f1))],
+                                                   msg=f"lot {ilot} given as integers at rotation {rot}: field differs from the same lot given as floats ({'error ' + str(e1) if e1 is not None else str(len(f1)) + ' vs ' + str(len(f0)) + ' boreholes / positions differ'})", rotation=rot))
+            res.outcome("int_outline")
     # translation: the same lot moved by (a, b) gives the same field moved by (a, b)
     if case.get("translate") and nogo is None and spacing not in (5.0, 10.0, 20.0):  # exact multiples of the lattice pitch are degenerate
         for rot in case["translate"]:
@@ -350,7 +361,7 @@ def run_case(case):
                                 res.bump("lot_too_thin_skipped")
                                 continue
                             c = {"kind": "single", "poly": [list(p) for p in poly], "scale": scale, "offset": off, "spacing": s, "rots": case["rots"],
-                                 "translate": case.get("translate")}
+                                 "translate": case.get("translate"), "as_int": case.get("as_int", False)}
                             run_single(c, res)
                             if res["sample"] is None:
                                 res["sample"] = c
@@ -372,8 +383,8 @@ def main(run: core.Run, only=None):
     step = 4
     for i in range(0, len(idx), step):
         chunks.append({"kind": "chunk", "polys": idx[i:i + step], "variants": ["hull"] if quick else ["hull", "edge"], "scales": [20.0] if quick else [20.0, 33.3],
-                       "offsets": [0.0, 7.5], "spacings": [7.3] if quick else [5.3, 7.3, 10.0, 11.9, 17.0, 23.0], "rots": ROTS if not quick else [-90.0, -45.0, 0.0, 30.0, 75.0],
-                       "translate": [0.0, 30.0] if i % (4 * step) == 0 else None})
+                       "offsets": [0.0, 7.5] if not (i % (2 * step) == 0) else [0.0, 7.5, 3.0], "spacings": [7.3] if quick else [5.3, 7.3, 10.0, 11.9, 17.0, 23.0], "rots": ROTS if not quick else [-90.0, -45.0, 0.0, 30.0, 75.0],
+                       "translate": [0.0, 30.0] if i % (4 * step) == 0 else None, "as_int": i % (2 * step) == 0})
     run.drive(chunks, family="single-rotation")
     rects = []
     for W in (20.0, 25.0, 33.3, 40.0, 47.0, 60.0, 65.0, 80.5):
